@@ -65,7 +65,7 @@ func init() {
 			if tier == "thorough" {
 				d = 4
 			}
-			docs := []string{"M", "D", "E", "Mres", "Mtxn", "Dres", "Mpart", "Mempty", "Mbin", "SEQ", "OSO", "CC", "CD", "CF", "CM", "SC", "SD"}
+			docs := []string{"M", "D", "E", "Mres", "Mtxn", "Dres", "Eres", "Mpart", "Mempty", "Mbin", "SEQ", "OSO", "CC", "CD", "CF", "CM", "SC", "SD"}
 			skip := []string{"M", "E", "Mbefore", "Mat", "Ebefore", "Mres", "SEQ"}
 			coll := []string{"M", "Mc1", "Dc2", "Mcx", "CC", "CD"} // (CD: "collection c1 dropped", seen by ONE vBucket at that point)
 			ops := []string{"deliver0", "deliver1", "ackold"}
